@@ -410,4 +410,17 @@ Section C02Model.
     match l with [] => [] | a :: r => map (fun b => (a_pos a, a_pos b)) r ++ self_pts r end.
   (* group2CenterOnly: every atom of group1 with the centre of mass of group2 *)
   Definition center_pairs (g1 g2 : list atom) : list (V3 * V3) := let c := com g2 in map (fun a => (a_pos a, c)) g1.
+  (* ---------------------------------------------------------------- eigenvector with differenceVector / normalizeVector
+     (eigenvector::init): the vector used in the projection.  differenceVector: the given coordinates x_vec are centred,
+     optimally superposed (quaternion qd) on the centred reference, and the reference is subtracted; then the vector is
+     scaled by 1/sqrt(sum |v|^2) (normalizeVector) or by 1/sum |v|^2 (differenceVector alone). *)
+  Definition vnorm2_sum (v : list V3) : T := lsum (v3norm2 O) v.
+  Definition eigvec_prepare (difference normalize : bool) (qd : Q4) (ref vec : list V3) : list V3 :=
+    let vc := center_pts vec in
+    let v1 := if difference then map (fun pr => v3sub O (rotate qd (fst pr)) (snd pr)) (combine vc (center_pts ref)) else vc in
+    let inv := one / vnorm2_sum v1 in
+    if normalize then map (v3scale O (nsqrt O inv)) v1
+    else if difference then map (v3scale O inv) v1 else v1.
+  Definition cv_eigenvector_v (q : Q4) (ref v : list V3) (g : list atom) : T :=
+    lsum (fun t => v3dot O (v3sub O (fst (fst t)) (snd (fst t))) (snd t)) (combine (combine (fit_positions q ref g) ref) v).
 End C02Model.
